@@ -49,6 +49,7 @@ def meta(tier, seed):
                   "zero variance -> 1), an arm without data sees the raw query",
         "bounds": {"rows_max": 3 if tier == "quick" else 4, "row_alphabet": 4 if tier == "quick" else 6, "d": [1, 2, 3], "lambdas": LAMBDAS,
                    "policies": [p[0] for p in POLICIES], "query_rows": [1, 2, 3],
+                   "long_history": "one 703-row single-fit history per (policy, lambda, scale, d)",
                    "variants": ["no arm change", "add_arm(3) at the end", "add_arm(3) after the first call, last row relabelled to arm 3"]},
         "assumptions": ["scale=True only with a single fit (running standardisation is excluded by the statement)",
                         "tolerance 1e-9 relative (1e-6 where a square root of a rational and standardisation are involved)"],
@@ -180,6 +181,18 @@ def judge(mab, history, q, cls, alpha, lam, scale):
     return msgs, out
 
 
+def long_history(d, n=700):
+    """One long deterministic single-fit history (size thresholds in the implementation - block-wise processing,
+    chunking - are invisible to 4-row histories): arm 1 gets n rows with drifting contexts, arm 2 gets 3."""
+    rows = []
+    for i in range(n):
+        x = [((i * 7) % 11) / 2.0 + i / 100.0] + [((i * 3 + j) % 5) - 2.0 for j in range(1, d)]
+        rows.append((1, x, ((i * 5) % 7) / 2.0 - 1.0))
+    for i in range(3):
+        rows.append((2, [float(i + 1)] + [float(i % 2)] * (d - 1), float(i)))
+    return [["fit", [r[0] for r in rows], [r[2] for r in rows], [list(r[1]) for r in rows]]]
+
+
 def run_shard(shard):
     cls, kw, lam, scale, d = shard["cls"], shard["kw"], shard["lam"], shard["scale"], shard["d"]
     lp = [cls, dict(kw, l2_lambda=lam, scale=scale)]
@@ -209,6 +222,18 @@ def run_shard(shard):
                         acc.violation(sig, {"cfg": cfg, "history": hist, "query": q}, msgs[0])
                 if n == 2 and variant == "add_mid_trained":
                     acc.sample({"cfg": cfg, "history": hist, "queries": QUERIES[d]})
+    # one long history per shard
+    hist = long_history(d)
+    mab = build(cfg, hist)
+    for m in (1, 3):
+        q = QUERIES[d][:m]
+        msgs, out = judge(mab, hist, q, cls, alpha, lam, scale)
+        acc.traces += 1
+        acc.case((shard["p"], lam, scale, d, "long", m))
+        acc.state((shard["p"], lam, scale, d, "long"))
+        if msgs:
+            acc.violation("%s lam=%s scale=%s d=%d m=%d long-history allobs" % (shard["p"], lam, scale, d, m),
+                          {"cfg": cfg, "history": hist, "query": q}, msgs[0])
     return acc.result()
 
 
